@@ -172,6 +172,65 @@ def extraction(ctx, case):
         _unshadow(gdb, extract, orig)
 
 
+def long_signature(ctx, case):
+    """up to 20 arguments (libwayland's maximum), with since-version digits and ? markers that make the signature text longer than 20 characters"""
+    sig, mode = case
+    import logging
+    logging.disable(logging.CRITICAL)
+    from harness import gdbworld
+    from core import wl
+    gdb, extract, plugin = gdbworld.install()
+    gdb.reset()
+    orig = _shadow(gdb, extract, ctx)
+    wl.Message.base_time = 0.0
+    try:
+        codes = [c for c in sig if c in 'iufsonah']
+        args = []
+        for k, c in enumerate(codes):
+            a = {'code': c}
+            if c in 'iuh':
+                a['value'] = ctx.fresh_int('v%d' % k, 0, 2 ** 31)
+            elif c == 'f':
+                a['value'] = ctx.fresh_int('v%d' % k, -2 ** 31, 2 ** 31)
+            elif c == 's':
+                a['value'] = 'text %d' % k
+            elif c == 'o':
+                a['null'] = False; a['id'] = ctx.fresh_int('v%d' % k, 1, 2 ** 32); a['type'] = 'wl_t%d' % k
+            elif c == 'n':
+                a['id'] = ctx.fresh_int('v%d' % k, 1, 2 ** 32); a['proxy_id'] = a['id']; a['type'] = 'wl_n%d' % k
+            elif c == 'a':
+                a['elems'] = [k, k + 1]
+            args.append(a)
+        clo = gdbworld.build_closure(gdb, gdbworld.Closure('big', sig, args, None, 9, 'wl_thing'))
+        if mode == 'sent':
+            gdb._State.frame = gdbworld.frames_sent(gdb, clo, 0x1230)
+            _, msg = extract.sent_message()
+        else:
+            gdb._State.frame = gdbworld.frames_received(gdb, clo, mode, 0x1230, 'wl_thing')
+            _, msg = extract.received_message()
+        ctx.check('one argument per type code (%d)' % len(codes), len(msg.args) == len(codes))
+        for k, (c, a) in enumerate(zip(codes, args)):
+            if k >= len(msg.args):
+                break
+            g = msg.args[k]
+            if c in 'iu':
+                ctx.check('argument %d integer' % k, isinstance(g, wl.Arg.Int) and g.value == a['value'])
+            elif c == 'h':
+                ctx.check('argument %d fd' % k, isinstance(g, wl.Arg.Fd) and g.value == a['value'])
+            elif c == 's':
+                ctx.check('argument %d string' % k, isinstance(g, wl.Arg.String) and g.value == a['value'])
+            elif c == 'o':
+                ctx.check('argument %d object with ITS declared interface' % k, isinstance(g, wl.Arg.Object) and g.obj.id == a['id'] and g.obj.type == a['type'])
+            elif c == 'n':
+                ctx.check('argument %d new id with ITS declared interface' % k, isinstance(g, wl.Arg.Object) and g.is_new and g.obj.id == a['id'] and g.obj.type == a['type'])
+            elif c == 'a':
+                ctx.check('argument %d array' % k, isinstance(g, wl.Arg.Array) and [e.value for e in g.values] == a['elems'])
+            elif c == 'f':
+                ctx.check('argument %d fixed' % k, isinstance(g, wl.Arg.Float))
+    finally:
+        _unshadow(gdb, extract, orig)
+
+
 def twin(ctx, case):
     extraction(ctx, case)
     ctx.check('reachability twin (must be violated)', False)
@@ -345,5 +404,7 @@ def obligations(tier):
         Ob('fixed-point-lemma', 'smt', 'the C expression string built for a fixed argument equals f/256 for every 32-bit f (QF_BVFP)', FUNCS[:1], 'all 2^32 values', fixed_lemma, cases=[None], replay=replay_fixed),
         Ob('log-mode-agreement', 'symx', 'reference wl_closure_print of the closure decoded by the real parse.message agrees with the extraction on everything the text retains', FUNCS + ['backends.libwayland_debug_output.parse:message'],
            'signatures of <= 2 codes (+ array-first pairs and n,a,x triples), values from boundary pools', log_agreement, cases=lcases),
+        Ob('long-signatures', 'symx', 'signatures with up to 20 arguments and more than 20 characters (version digits, ? markers)', FUNCS, '7 signatures of 10-20 arguments, values symbolic', long_signature,
+           cases=[('2' + 'i' * 20, 'sent'), ('12' + 'u' * 19 + 'h', 'server'), ('1' + '?s' * 10, 'sent'), ('3' + '?o' * 10 + 'n' * 10, 'server'), ('a' + 'i' * 19, 'client'), ('?s?o' * 5 + 'fuih' * 2 + 'nn', 'client'), ('20' + 'ohn' * 6 + '?s?s', 'sent')]),
         Ob('extraction-reachable', 'symx', 'reachability twin', FUNCS, bounds, twin, cases=[(('n', 'a', 'i'), 'client')], expect_cex=True),
     ]
